@@ -9,7 +9,7 @@ import proto
 
 RULE = ('exhaustive: every call sequence of length <= 3 (quick) / 4 (thorough) after an execute over {fetchone, fetchmany(), fetchmany(0|1|2), '
         'fetchall, iter x1, iter xall, arraysize=2, re-execute} on results of size 0..3; seeded random sequences of length '
-        '<= 30 with several cursors per connection; description indexing/slicing for every index in [-9, 9] and every slice '
+        '<= 30 with several cursors per connection; every sequence of <= 4 (5 thorough) calls over {next() on a kept iterator, iter(), fetchone, fetchmany(2), fetchall, re-execute}; description indexing/slicing for every index in [-9, 9] and every slice '
         'bound pair in [-8, 8] u {None}.  After every call the return value, rowcount, rownumber and description are compared. '
         'Non-trivial = sequence contains an execute and at least one fetch; distinct = distinct protocol line.')
 ASSUMPTIONS = ['fetchmany sizes are non-negative (explicit sizes of the property)',
@@ -154,10 +154,10 @@ def line_for(results, ops, flags=()):
             j, a, b = arg
             body.append('(colslice %d %s %s)' % (j, 'nil' if a is None else a, 'nil' if b is None else b))
         elif op == 'hopen':
-            body.append('(fetchmany 0)')        # nothing is delivered, nothing moves
+            body.append('(hopen)')
         elif op == 'hnext':
-            # a live iterator's next() is one step of a fresh iteration; an ended one delivers nothing and moves nothing
-            body.append('(fetchmany 0)' if flags.pop(0) else '(iter 1)')
+            # the model keeps the iterator's state itself (Cursor.heldNext)
+            body.append('(hnext)')
         else:
             body.append(enc_op(op, arg or 0))
     return '(cursor (results %s) (ops %s))' % (rs, ' '.join(body))
@@ -198,10 +198,7 @@ def mkresults(sizes):
 
 
 def check_script(ctx, results, ops, name):
-    flags = []
-    if any(o in ('hnext', 'hopen') for o, _ in ops):
-        run_impl(results, ops, flags)
-    line = line_for(results, ops, flags)
+    line = line_for(results, ops)
     nontrivial = any(o == 'execute' for o, _ in ops) and any(o.startswith('fetch') or o.startswith('iter') for o, _ in ops)
     ok = ctx.check(name, [line], lambda: run_impl(results, ops), nontrivial=nontrivial,
                    payload={'results': results, 'ops': ops}, meta={'ops': ops})
